@@ -39,7 +39,7 @@ def sublexer_model(s):
 
 def lex_number_model(s):
     """lex_number is entered right after its first digit was accepted (it steps back over it): needs pos >= 1."""
-    require("first_digit_consumed", 1 <= s.pos and s.pos <= len(s.input) and 0 <= s.start)
+    require("first_digit_consumed", 1 <= s.pos and s.pos <= len(s.input) and 0 <= s.start and s.input[s.pos - 1] in "0123456789")
     p = fresh_int("pos_after")
     assume(p >= s.pos and p <= len(s.input))
     s.pos = p
@@ -55,3 +55,58 @@ def lex_identifier_model(s):
         assume(p > s.pos)
     s.pos = p
     _havoc_bookkeeping(s)
+
+
+# ------------------------------------------------------------------------------------------------ positions (C17)
+from a816.parse.tokens import Position, Token, TokenType
+
+
+def get_position_checked(self):
+    """Scanner.get_position with the C17 side condition made explicit: the position is taken while the token start is still on
+    the line being scanned (no line end consumed since), so line = current_line and column = start - line_offset >= 0."""
+    require("position_taken_on_the_tokens_line", self.line_offset <= self.start)
+    return Position(self.current_line, self.start - self.line_offset, self.file)
+
+
+def get_token_checked(self, token_type):
+    """Scanner.get_token: same side condition for every token kind that can head a statement or carry an error location
+    (COMMENT tokens are dropped by the parser and deliberately excluded: both comment forms consume the line end first)."""
+    if token_type != TokenType.COMMENT:
+        require("token_position_on_its_line", self.line_offset <= self.start)
+    return Token(token_type, self.input[self.start:self.pos], Position(self.current_line, self.start - self.line_offset, self.file))
+
+
+def _havoc_lines(s):
+    """What every sub-lexer guarantees about the line bookkeeping: it consumes no line end (line_offset / current_line are
+    unchanged) and leaves the token start between its old value and the position."""
+    st = fresh_int("start_after")
+    assume(s.start <= st and st <= s.pos)
+    s.start = st
+
+
+def sublexer_model_lines(s):
+    require("scanner_well_formed", 0 <= s.line_offset and s.line_offset <= s.start and s.start <= s.pos and s.pos <= len(s.input))
+    p = fresh_int("pos_after")
+    assume(p >= s.pos and p <= len(s.input))
+    k = fresh_int("raises")
+    if k == 1:
+        raise ScannerException("error", Position(0, 0, s.file))
+    s.pos = p
+    _havoc_lines(s)
+
+
+def lex_number_model_lines(s):
+    require("first_digit_consumed", 0 <= s.line_offset and s.line_offset <= s.start and s.start < s.pos and s.pos <= len(s.input)
+            and s.input[s.pos - 1] in "0123456789")
+    p = fresh_int("pos_after")
+    assume(p >= s.pos and p <= len(s.input))
+    s.pos = p
+    _havoc_lines(s)
+
+
+def lex_identifier_model_lines(s):
+    require("scanner_well_formed", 0 <= s.line_offset and s.line_offset <= s.start and s.start <= s.pos and s.pos <= len(s.input))
+    p = fresh_int("pos_after")
+    assume(p >= s.pos and p <= len(s.input))
+    s.pos = p
+    _havoc_lines(s)
